@@ -277,5 +277,20 @@ CHECKS["C01"] = {
             "types are exercised for validity under C16 and for typing under C05). IR equality model/implementation is established by C05/C06/C07's K legs.",
 }
 
+CHECKS["C13"] = {
+    "text": "The property itself is decided per handler, argument values and world, on the real output: the support header emitted for generated on<Signal> handlers is "
+            "compiled against the API model; after setup() the signal is EMITTED on the declaring object and the trace of property writes, method calls and log calls "
+            "(with argument values, in order) plus the final state of all objects is compared with model/Sem.v's run of the handler's source in the same world with the "
+            "declared parameters bound to the leading signal arguments, whenever that run is defined. Also checked on the header: exactly one connection per handler, "
+            "to that signal of the declaring object, the default-argument variants collapsing to the overload carrying the most arguments; and the rejections "
+            "(overloaded signal, non-signal, too many / ill-typed parameters, unknown signal). Proofs (closed under the global context) fix the reference semantics: "
+            "effects are recorded in source order and nothing else, parameters are the leading arguments, an early return stops the handler. NOT proved: the general "
+            "statement for all handlers -- an open obligation; the theorems are named C13_partial_*.",
+    "technique": "executable Coq reference semantics with partial proofs + execution of the real emitted C++ (signal emission against the API model) compared with it + header scan for the wiring",
+    "design_ref": "5 C13",
+    "note": "PARTIAL: decided per generated handler. Trusted: g++, the API model, Sem.v. Evaluation order (receiver before arguments, target before value) follows ECMAScript in "
+            "Sem.v; see known findings for F16.",
+}
+
 NOT_YET = {
 }
